@@ -2243,6 +2243,12 @@ ldb_write(ldb_t *db, ldb_batch_t *updates, const ldb_writeopt_t *options) {
 
       rc = ldb_writer_add_record(db->log, &contents);
 
+      if (rc != LDB_OK) {
+        /* A partially appended record leaves the writer's block offset out
+           of step with the file: later records would be mis-framed. */
+        sync_error = 1;
+      }
+
       if (rc == LDB_OK && options->sync) {
         rc = ldb_wfile_sync(db->logfile);
 
